@@ -11,6 +11,9 @@ import (
 	"sort"
 	"strings"
 
+	"golang.org/x/tools/go/callgraph"
+	"golang.org/x/tools/go/callgraph/cha"
+	"golang.org/x/tools/go/callgraph/vta"
 	"golang.org/x/tools/go/packages"
 	"golang.org/x/tools/go/ssa"
 	"golang.org/x/tools/go/ssa/ssautil"
@@ -29,6 +32,31 @@ type Ctx struct {
 	SSA      map[string]*ssa.Package // rel path -> ssa package
 	AllFuncs []*ssa.Function         // every module function, method and function literal with a body
 	GOARCH   string
+	vta      *callgraph.Graph
+}
+
+// VTA builds (once) the whole-program VTA call graph over a CHA graph: the most precise resolution of
+// dynamic calls available with x/tools v0.29.0 (thorough tier).
+func (c *Ctx) VTA() *callgraph.Graph {
+	if c.vta == nil {
+		c.vta = vta.CallGraph(ssautil.AllFunctions(c.Prog), cha.CallGraph(c.Prog))
+	}
+	return c.vta
+}
+
+// VTACallees lists the callees VTA resolves for a call instruction.
+func (c *Ctx) VTACallees(call ssa.CallInstruction) []*ssa.Function {
+	n := c.VTA().Nodes[call.Parent()]
+	if n == nil {
+		return nil
+	}
+	var out []*ssa.Function
+	for _, e := range n.Out {
+		if e.Site == call && e.Callee != nil && e.Callee.Func != nil {
+			out = append(out, e.Callee.Func)
+		}
+	}
+	return out
 }
 
 // Load type-checks the whole program rooted at repo and builds SSA for all of it.
